@@ -50,15 +50,15 @@ func (f *fakePlatform) Ping(target net.IP, timeout time.Duration) (time.Duration
 	}
 	return 0, errors.New("request timed out")
 }
-func (f *fakePlatform) AddRoute(*routing.Route) error                { return nil }
-func (f *fakePlatform) DeleteRoute(*routing.Route) error             { return nil }
-func (f *fakePlatform) GetRoutes(int) ([]*routing.Route, error)      { return nil, nil }
-func (f *fakePlatform) FlushTable(int) error                         { return nil }
-func (f *fakePlatform) AddRule(*routing.PolicyRule) error            { return nil }
-func (f *fakePlatform) DeleteRule(*routing.PolicyRule) error         { return nil }
-func (f *fakePlatform) GetRules() ([]*routing.PolicyRule, error)     { return nil, nil }
-func (f *fakePlatform) SetInterfaceUp(string) error                  { return nil }
-func (f *fakePlatform) SetInterfaceDown(string) error                { return nil }
+func (f *fakePlatform) AddRoute(*routing.Route) error            { return nil }
+func (f *fakePlatform) DeleteRoute(*routing.Route) error         { return nil }
+func (f *fakePlatform) GetRoutes(int) ([]*routing.Route, error)  { return nil, nil }
+func (f *fakePlatform) FlushTable(int) error                     { return nil }
+func (f *fakePlatform) AddRule(*routing.PolicyRule) error        { return nil }
+func (f *fakePlatform) DeleteRule(*routing.PolicyRule) error     { return nil }
+func (f *fakePlatform) GetRules() ([]*routing.PolicyRule, error) { return nil, nil }
+func (f *fakePlatform) SetInterfaceUp(string) error              { return nil }
+func (f *fakePlatform) SetInterfaceDown(string) error            { return nil }
 func (f *fakePlatform) GetInterfaceByName(string) (*routing.InterfaceInfo, error) {
 	return nil, errors.New("no such interface")
 }
